@@ -25,6 +25,9 @@ type zzFSTarget struct {
 // GET/HEAD x no Range or one of six range forms: the answer is exactly the requested slice of
 // the right file with consistent Content-Length/Content-Range, 404 for what is not under the
 // root, 416 for an unsatisfiable range; nothing of the file beside the root is ever served.
+// File names carry extensions of Go's built-in MIME table (or none), so that the content-type
+// sniffing path is taken for the same files natively and under the executor, whatever
+// /etc/mime.types says.
 func ZZ_C08_FS() {
 	base := zz.FSRoot()
 	defer zz.FSDone(base)
@@ -38,19 +41,19 @@ func ZZ_C08_FS() {
 	big[0], big[8999] = sym[0], sym[1]
 	secret := []byte("TOP-SECRET")
 	contents := [][]byte{small, big, {}, []byte("INDEX"), []byte("PLUS")}
-	zz.FSAdd(root+"/p+q.txt", contents[4])
-	zz.FSAdd(root+"/p q.txt", []byte("SPACE"))
-	zz.FSAdd(root+"/s.txt", small)
-	zz.FSAdd(root+"/big.bin", big)
+	zz.FSAdd(root+"/p+q.css", contents[4])
+	zz.FSAdd(root+"/p q.css", []byte("SPACE"))
+	zz.FSAdd(root+"/s.css", small)
+	zz.FSAdd(root+"/big.js", big)
 	zz.FSAdd(root+"/empty", nil)
 	zz.FSAdd(root+"/d/index.html", contents[3])
-	zz.FSAdd(root+"/e/x.txt", []byte("x"))
+	zz.FSAdd(root+"/e/x.css", []byte("x"))
 	zz.FSAdd(base+"/secret.txt", secret)
 	targets := []zzFSTarget{
-		{"/s.txt", 0, 0}, {"/big.bin", 0, 1}, {"/empty", 0, 2}, {"/d/", 0, 3}, {"/d", 0, 3},
-		{"//s.txt", 0, 0}, {"/d/../s.txt", 0, 0}, {"/p+q%2Etxt", 0, 4},
-		{"/s.txt/below", 1, 0},
-		{"/missing.txt", 1, 0}, {"/../secret.txt", 1, 0}, {"/d/../../secret.txt", 1, 0}, {"/%2e%2e/secret.txt", 1, 0},
+		{"/s.css", 0, 0}, {"/big.js", 0, 1}, {"/empty", 0, 2}, {"/d/", 0, 3}, {"/d", 0, 3},
+		{"//s.css", 0, 0}, {"/d/../s.css", 0, 0}, {"/p+q%2Ecss", 0, 4},
+		{"/s.css/below", 1, 0},
+		{"/missing.css", 1, 0}, {"/../secret.txt", 1, 0}, {"/d/../../secret.txt", 1, 0}, {"/%2e%2e/secret.txt", 1, 0},
 		{"/e/", 2, 0},
 	}
 	fs := &FS{
@@ -125,7 +128,7 @@ func ZZ_C08_FS() {
 		case 2:
 			if fs.GenerateIndexPages {
 				zz.Cover("generated-index", true)
-				zz.Assert("generated-index-lists-the-directory", (status == 200 || status == 206 || status == 416) && (head || status != 200 || bytes.Contains(body, []byte("x.txt"))))
+				zz.Assert("generated-index-lists-the-directory", (status == 200 || status == 206 || status == 416) && (head || status != 200 || bytes.Contains(body, []byte("x.css"))))
 			} else {
 				zz.Assert("directory-without-index-is-refused", status == 403)
 			}
